@@ -15,6 +15,7 @@ def dispatch (line : String) : String :=
   | "fetch" :: rest => fetchEngine rest
   | "cache" :: rest => cacheEngine rest
   | "kvfs" :: rest => kvfsEngine rest
+  | "asm15" :: rest => asm15Engine rest
   | _ => "bad-op"
 
 partial def loop (hin hout : IO.FS.Stream) : IO Unit := do
